@@ -764,7 +764,7 @@ class Engine:
             return
         if isinstance(f, SV):
             ok, obj = self.unlift_const(f.t)
-            if ok and obj is not None and callable(obj):
+            if ok and obj is not None and (callable(obj) or isinstance(obj, (Closure, BoundMethod, Model))):
                 yield from self.call(obj, args, kwargs, st, line)
                 return
             yield from self.call_opaque(f, args, kwargs, st, line)
@@ -1229,6 +1229,26 @@ class Engine:
                     yield st1, ("raise", obj.exc)
                     continue
                 yield from self.store_attr(obj, self._mangle(target.attr, st1, fr), v, st1, line)
+        elif isinstance(target, (ast.Tuple, ast.List)) and any(isinstance(e, ast.Starred) for e in target.elts):
+            # a, *b, c = <iterable of concrete length on this path>
+            stars = [i for i, e in enumerate(target.elts) if isinstance(e, ast.Starred)]
+            if len(stars) != 1:
+                raise Unsupported("assignment with several starred targets")
+            i_star = stars[0]
+            n_after = len(target.elts) - i_star - 1
+            for st1, items in self.iter_concrete(v, st):
+                if isinstance(items, Raise):
+                    yield st1, ("raise", items.exc)
+                    continue
+                if len(items) < len(target.elts) - 1:
+                    yield st1, ("raise", Exc(ValueError, ("not enough values to unpack",)))
+                    continue
+                mid = list(items[i_star:len(items) - n_after])
+                # the starred name is bound to a new list
+                lst_sv = self.new_list(st1, mid)
+                vals = list(items[:i_star]) + [lst_sv] + list(items[len(items) - n_after:] if n_after else [])
+                elts = [e.value if isinstance(e, ast.Starred) else e for e in target.elts]
+                yield from self._assign_seq(elts, vals, st1, fr, line)
         elif isinstance(target, (ast.Tuple, ast.List)):
             for st1, items in self.unpack(v, len(target.elts), st, line):
                 if isinstance(items, Raise):
@@ -1697,7 +1717,20 @@ class Engine:
 
     def e_Dict(self, node, st, fr):
         if any(k is None for k in node.keys):
-            raise Unsupported("dict unpacking in literal")
+            # {**a, **b, k: v}: supported when every unpacked value is a dict of concrete shape on this path
+            if not all(k is None for k in node.keys):
+                raise Unsupported("dict literal mixing ** unpacking and plain items")
+            for st1, ds in self.eval_list(node.values, st, fr):
+                if isinstance(ds, Raise):
+                    yield st1, ds
+                    continue
+                if not all(isinstance(d, dict) for d in ds):
+                    raise Unsupported("** unpacking of a dict that is not concrete")
+                out = {}
+                for d in ds:
+                    out.update(d)
+                yield st1, out
+            return
         for st1, ks in self.eval_list(node.keys, st, fr):
             if isinstance(ks, Raise):
                 yield st1, ks
